@@ -112,6 +112,27 @@ def c16(res):
                       "lattice points of [-3,3]^3; a case = one shape")
 
 
+def c18(res):
+    wd = workdir("C18")
+    q = res.tier == "quick"
+    res.models.append(model_check("Canvas", "Canvas_quick.cfg" if q else "Canvas_thorough.cfg", wd, workers=8, timeout=6000))
+    hists = os.path.join(wd, "hists.out")
+    res.gens.append(generate("Canvas", "CanvasGen_quick.cfg" if q else "CanvasGen_thorough.cfg", wd, hists, workers=4, timeout=3000))
+    trace = os.path.join(wd, "trace.ndjson")
+    if not run_recorder(res, "c18", [hists, res.tier, trace], wd, timeout=3000):
+        return res.finish("recorder crashed")
+    n, rej = validate("Trace_C18", trace, wd, timeout=6000)
+    res.validated = n - len(rej)
+    res.evaluations = n
+    res.samples = sample_lines(trace, maxlen=3000)
+    res.add_rejects(trace, rej, lambda r, f: "ev=%s dim=%s kind=%s fails=%s" % (r.get("ev"), r.get("dim", 2), r.get("kind", json.dumps(r.get("event"))), "+".join(sorted(f))))
+    res.assumptions = ["exact clauses: dyadic event sequences on Canvas2 (power-of-two sizes, integer cursors, scroll multiples of 100)",
+                       "judged clauses: tolerance enclosures for the point under the cursor on random float sequences (2D and 3D)"]
+    return res.finish("every event sequence of the Canvas.tla bound replayed on the real Canvas2 and compared state by state with the exact "
+                      "dyadic model, plus random float sequences on Canvas2 and Canvas3 (drag, rotate, zoom with and without cursor incl. "
+                      "saturating scrolls, resize); a case = one event")
+
+
 def c20(res):
     wd = workdir("C20")
     res.models.append(model_check("EvalTrace", "EvalTrace.cfg", wd, workers=4, coverage=True))
@@ -431,7 +452,7 @@ def c11(res):
                       "Function and Shape APIs; a case = one call")
 
 
-CHECKS = {"C01": c01, "C03": c03, "C05": c05, "C06": c06, "C07": c07, "C09": c09, "C11": c11, "C12": c12, "C13": c13, "C02": c02, "C04": c04, "C10": c10, "C14": c14, "C15": c15, "C16": c16, "C20": c20}
+CHECKS = {"C01": c01, "C03": c03, "C05": c05, "C06": c06, "C07": c07, "C09": c09, "C11": c11, "C12": c12, "C13": c13, "C02": c02, "C04": c04, "C10": c10, "C14": c14, "C15": c15, "C16": c16, "C18": c18, "C20": c20}
 
 
 def replay(prop, path):
